@@ -84,6 +84,9 @@ Proof. reflexivity. Qed.
 
 (* ---------- termination within n sequence numbers ---------- *)
 
+Lemma nthz_cons' x l i : 0 < i -> nthz (x :: l) i = nthz l (i - 1).
+Proof. intros H. unfold nthz. replace (Z.to_nat i) with (S (Z.to_nat (i - 1))) by lia. reflexivity. Qed.
+
 Lemma u32_id x : 0 <= x < 2 ^ 32 -> u32 x = x.
 Proof. intros H. unfold u32. apply Z.mod_small. exact H. Qed.
 
@@ -126,6 +129,431 @@ Proof.
   - exists t. split; [lia|exact Et].
 Qed.
 
+(* ---------- the picks of a window of sequence numbers ---------- *)
+
+Lemma cnt_app s a b : cnt s (a ++ b) = cnt s a + cnt s b.
+Proof. induction a as [|x r IH]; cbn [cnt app]; [lia|]. rewrite IH. lia. Qed.
+
+Lemma wpicks_snoc ws : forall L ctr,
+  wpicks ws ctr (S L) = wpicks ws ctr L ++
+    (if picks_at ws (ctr + Z.of_nat L + 1) then [backend (zlen ws) (ctr + Z.of_nat L + 1)] else []).
+Proof.
+  induction L as [|L IH]; intro ctr.
+  - cbn [wpicks Z.of_nat]. rewrite Z.add_0_r, app_nil_r. reflexivity.
+  - change (wpicks ws ctr (S (S L))) with
+      ((if picks_at ws (ctr + 1) then [backend (zlen ws) (ctr + 1)] else []) ++ wpicks ws (ctr + 1) (S L)).
+    rewrite IH. change (wpicks ws ctr (S L)) with
+      ((if picks_at ws (ctr + 1) then [backend (zlen ws) (ctr + 1)] else []) ++ wpicks ws (ctr + 1) L).
+    rewrite <- app_assoc. replace (ctr + 1 + Z.of_nat L + 1) with (ctr + Z.of_nat (S L) + 1) by lia. reflexivity.
+Qed.
+
+Lemma wpicks_app ws : forall a b ctr,
+  wpicks ws ctr (a + b) = wpicks ws ctr a ++ wpicks ws (ctr + Z.of_nat a) b.
+Proof.
+  induction a as [|a IH]; intros b ctr.
+  - cbn [wpicks plus Z.of_nat app]. rewrite Z.add_0_r. reflexivity.
+  - cbn [plus wpicks]. rewrite IH, <- app_assoc. replace (ctr + 1 + Z.of_nat a) with (ctr + Z.of_nat (S a)) by lia.
+    reflexivity.
+Qed.
+
+(* closed form for the number of picks of backend i (weight w, constant c) among the sequence
+   numbers 0 .. x-1 *)
+Definition Fcnt (w c n i x : Z) : Z :=
+  (w * (x / n) + c) / maxWeight - c / maxWeight +
+  (if (i <? x mod n) && pickedZ w (w * (x / n) + c) then 1 else 0).
+
+Lemma Fcnt_step w c n i x : 0 < n -> 0 <= i < n -> 0 <= w <= maxWeight ->
+  Fcnt w c n i (x + 1) - Fcnt w c n i x =
+  if (x mod n =? i) && pickedZ w (w * (x / n) + c) then 1 else 0.
+Proof.
+  intros Hn Hi Hw. unfold Fcnt.
+  pose proof (Z.div_mod x n ltac:(lia)) as E. pose proof (Z.mod_pos_bound x n Hn) as B.
+  set (q := x / n) in *. set (r := x mod n) in *.
+  destruct (Z.eq_dec r (n - 1)) as [R|R].
+  - assert (Eq: (x + 1) / n = q + 1) by (symmetry; apply (Zdiv_unique _ _ _ 0); lia).
+    assert (Er: (x + 1) mod n = 0) by (symmetry; apply (Zmod_unique _ _ (q + 1)); lia).
+    rewrite Eq, Er. pose proof (pick_telescoping w (w * q + c) Hw) as T.
+    replace (w * (q + 1) + c) with (w * q + c + w) by lia.
+    destruct (Z.ltb_spec i 0); [lia|]. cbn [andb].
+    destruct (pickedZ w (w * q + c)); destruct (Z.ltb_spec i r); destruct (Z.eqb_spec r i); cbn [andb]; lia.
+  - assert (Eq: (x + 1) / n = q) by (symmetry; apply (Zdiv_unique _ _ _ (r + 1)); lia).
+    assert (Er: (x + 1) mod n = r + 1) by (symmetry; apply (Zmod_unique _ _ q); lia).
+    rewrite Eq, Er.
+    destruct (pickedZ w (w * q + c)); destruct (Z.ltb_spec i r); destruct (Z.ltb_spec i (r + 1));
+      destruct (Z.eqb_spec r i); cbn [andb]; lia.
+Qed.
+
+Lemma Fcnt_window w c n i x : 0 < n -> 0 <= w <= maxWeight ->
+  Fcnt w c n i (x + maxWeight * n) - Fcnt w c n i x = w.
+Proof.
+  intros Hn Hw. unfold Fcnt.
+  rewrite Z.div_add, Z.mod_add by lia.
+  replace (w * (x / n + maxWeight) + c) with (w * (x / n) + c + w * maxWeight) by lia.
+  rewrite Z.div_add by (unfold maxWeight; lia).
+  assert (Ep: pickedZ w (w * (x / n) + c + w * maxWeight) = pickedZ w (w * (x / n) + c)).
+  { unfold pickedZ. rewrite Z.mod_add by (unfold maxWeight; lia). reflexivity. }
+  rewrite Ep. lia.
+Qed.
+
+Definition weights_ok (ws : list Z) : Prop :=
+  0 < zlen ws < 2 ^ 32 /\ forall i, 0 <= i < zlen ws -> 0 <= nthz ws i <= maxWeight.
+
+Lemma picks_at_backend ws x i : weights_ok ws -> 0 <= x < 2 ^ 32 -> backend (zlen ws) x = i ->
+  picks_at ws x = pickedZ (nthz ws i) (nthz ws i * (x / zlen ws) + i * offset).
+Proof.
+  intros [Hn Hw] Hx Hb. unfold picks_at. rewrite Hb. unfold generation.
+  assert (Hi: 0 <= i < zlen ws) by (subst i; unfold backend; apply Z.mod_pos_bound; lia).
+  apply picked_nowrap, stride_range; [apply Hw, Hi| |lia].
+  split; [apply Z.div_pos; lia|]. apply Z.div_lt_upper_bound; [lia|]. nia.
+Qed.
+
+Lemma cnt_wpicks ws i : weights_ok ws -> 0 <= i < zlen ws -> forall L ctr,
+  0 <= ctr -> ctr + Z.of_nat L < 2 ^ 32 ->
+  cnt i (wpicks ws ctr L) =
+  Fcnt (nthz ws i) (i * offset) (zlen ws) i (ctr + 1 + Z.of_nat L) -
+  Fcnt (nthz ws i) (i * offset) (zlen ws) i (ctr + 1).
+Proof.
+  intros Hok Hi. pose proof Hok as [Hn Hw].
+  induction L as [|L IH]; intros ctr Hc Hl.
+  - cbn [wpicks cnt Z.of_nat]. rewrite Z.add_0_r. lia.
+  - rewrite wpicks_snoc, cnt_app, IH by lia.
+    pose proof (Fcnt_step (nthz ws i) (i * offset) (zlen ws) i (ctr + 1 + Z.of_nat L) ltac:(lia) Hi (Hw i Hi)) as St.
+    replace (ctr + 1 + Z.of_nat (S L)) with (ctr + 1 + Z.of_nat L + 1) by lia.
+    replace (ctr + Z.of_nat L + 1) with (ctr + 1 + Z.of_nat L) by lia.
+    set (x := ctr + 1 + Z.of_nat L) in *.
+    destruct (Z.eqb_spec (x mod zlen ws) i) as [E|E].
+    + rewrite (picks_at_backend ws x i Hok ltac:(lia) E). cbn [andb] in St.
+      unfold backend. rewrite E.
+      destruct (pickedZ (nthz ws i) (nthz ws i * (x / zlen ws) + i * offset)); cbn [cnt]; [rewrite Z.eqb_refl|]; lia.
+    + cbn [andb] in St. destruct (picks_at ws x); cbn [cnt]; [|lia].
+      unfold backend. destruct (Z.eqb_spec (x mod zlen ws) i); [contradiction|lia].
+Qed.
+
+(* in any window of 65535*n consecutive sequence numbers below 2^32, the picked sequence
+   numbers address backend i exactly w_i times *)
+Theorem window_count ws i ctr : weights_ok ws -> 0 <= i < zlen ws ->
+  0 <= ctr -> ctr + maxWeight * zlen ws < 2 ^ 32 ->
+  cnt i (wpicks ws ctr (Z.to_nat (maxWeight * zlen ws))) = nthz ws i.
+Proof.
+  intros Hok Hi Hc Hl. pose proof Hok as [Hn Hw].
+  rewrite cnt_wpicks by (try assumption; rewrite Z2Nat.id by (unfold maxWeight; lia); lia).
+  rewrite Z2Nat.id by (unfold maxWeight; lia). apply Fcnt_window; [lia|apply Hw, Hi].
+Qed.
+
+(* ---------- nextIndex calls consume the window pick by pick ---------- *)
+
+Lemma wpicks_range ws : 0 < zlen ws -> forall L ctr,
+  Forall (fun x => 0 <= x < zlen ws) (wpicks ws ctr L).
+Proof.
+  intros Hn. induction L as [|L IH]; intro ctr; cbn [wpicks]; [constructor|].
+  apply Forall_app. split; [|apply IH].
+  destruct (picks_at ws (ctr + 1)); constructor; [|constructor].
+  unfold backend. apply Z.mod_pos_bound. exact Hn.
+Qed.
+
+(* one call: it returns the first pick of the window and leaves the rest of the window *)
+Lemma call_step ws : forall L fuel ctr, 0 <= ctr -> ctr + Z.of_nat L < 2 ^ 32 -> (L <= fuel)%nat ->
+  match wpicks ws ctr L with
+  | [] => True
+  | p :: rest => exists t, (1 <= t <= L)%nat /\ edf_next fuel ws ctr = (p, ctr + Z.of_nat t) /\
+                           wpicks ws (ctr + Z.of_nat t) (L - t) = rest
+  end.
+Proof.
+  induction L as [|L IH]; intros fuel ctr Hc Hl Hf; [exact I|].
+  destruct fuel as [|f]; [lia|]. cbn [wpicks edf_next]. rewrite u32_id by lia.
+  destruct (picks_at ws (ctr + 1)) eqn:E.
+  - cbn [app]. exists 1%nat. split; [lia|]. split; [reflexivity|].
+    replace (S L - 1)%nat with L by lia. reflexivity.
+  - cbn [app]. specialize (IH f (ctr + 1) ltac:(lia) ltac:(lia) ltac:(lia)).
+    destruct (wpicks ws (ctr + 1) L) as [|p rest]; [exact I|].
+    destruct IH as (t & Ht & Et & Er). exists (S t). split; [lia|]. split.
+    + rewrite Et. f_equal. lia.
+    + replace (ctr + Z.of_nat (S t)) with (ctr + 1 + Z.of_nat t) by lia.
+      replace (S L - S t)%nat with (L - t)%nat by lia. exact Er.
+Qed.
+
+(* a backend of weight 65535 is picked on every generation: a pick within any n sequence numbers *)
+Lemma max_pick ws j ctr : weights_ok ws -> 0 <= j < zlen ws -> nthz ws j = maxWeight ->
+  0 <= ctr -> ctr + zlen ws < 2 ^ 32 ->
+  exists d, 1 <= d <= zlen ws /\ picks_at ws (ctr + d) = true.
+Proof.
+  intros [Hn Hw] Hj Hm Hc Hcn. set (n := zlen ws) in *.
+  set (d := (j - (ctr + 1)) mod n + 1).
+  pose proof (Z.mod_pos_bound (j - (ctr + 1)) n ltac:(lia)) as Hd.
+  exists d. split; [lia|].
+  assert (Hb: backend n (ctr + d) = j).
+  { unfold backend, d. replace (ctr + ((j - (ctr + 1)) mod n + 1)) with ((ctr + 1) + (j - (ctr + 1)) mod n) by lia.
+    rewrite Zplus_mod_idemp_r. replace (ctr + 1 + (j - (ctr + 1))) with j by lia. apply Z.mod_small. lia. }
+  rewrite (picks_at_backend ws (ctr + d) j (conj Hn Hw) ltac:(lia) Hb), Hm.
+  unfold pickedZ. rewrite Z.sub_diag.
+  match goal with |- negb (?a mod _ <? 0) = true =>
+    pose proof (Z.mod_pos_bound a maxWeight ltac:(unfold maxWeight; lia)) as Hmm;
+    destruct (Z.ltb_spec (a mod maxWeight) 0); [lia|reflexivity] end.
+Qed.
+
+Lemma wpicks_nonempty ws ctr d L : (1 <= d <= L)%nat -> picks_at ws (ctr + Z.of_nat d) = true ->
+  wpicks ws ctr L <> [].
+Proof.
+  intros Hd Hp. replace L with ((d - 1) + S (L - d))%nat by lia. rewrite wpicks_app.
+  cbn [wpicks]. replace (ctr + Z.of_nat (d - 1) + 1) with (ctr + Z.of_nat d) by lia. rewrite Hp.
+  intro H. apply app_eq_nil in H as [_ H]. discriminate.
+Qed.
+
+Lemma call_in_window ws j fuel : weights_ok ws -> 0 <= j < zlen ws -> nthz ws j = maxWeight ->
+  (Z.to_nat (zlen ws) <= fuel)%nat ->
+  forall L ctr p rest, 0 <= ctr -> ctr + Z.of_nat L < 2 ^ 32 -> wpicks ws ctr L = p :: rest ->
+  exists t, (1 <= t <= L)%nat /\ Z.of_nat t <= zlen ws /\
+            edf_next fuel ws ctr = (p, ctr + Z.of_nat t) /\
+            wpicks ws (ctr + Z.of_nat t) (L - t) = rest.
+Proof.
+  intros Hok Hj Hm Hf L ctr p rest Hc Hl Hp. pose proof Hok as [Hn _].
+  set (N := Z.to_nat (zlen ws)) in *.
+  destruct (Nat.le_gt_cases L N) as [Le|Gt].
+  - pose proof (call_step ws L fuel ctr Hc Hl ltac:(lia)) as St. rewrite Hp in St.
+    destruct St as (t & Ht & Et & Er). exists t. repeat split; try lia; assumption.
+  - destruct (max_pick ws j ctr Hok Hj Hm Hc ltac:(lia)) as (d & Hd & Hpd).
+    assert (Hne: wpicks ws ctr N <> []).
+    { apply (wpicks_nonempty ws ctr (Z.to_nat d) N); [lia|]. rewrite Z2Nat.id by lia. exact Hpd. }
+    replace L with (N + (L - N))%nat in Hp by lia. rewrite wpicks_app in Hp.
+    pose proof (call_step ws N fuel ctr Hc ltac:(lia) Hf) as St.
+    destruct (wpicks ws ctr N) as [|p' rest'] eqn:EN; [congruence|].
+    cbn [app] in Hp. inversion Hp; subst p' rest. clear Hp.
+    destruct St as (t & Ht & Et & Er). exists t. repeat split; try lia; [exact Et|].
+    replace (L - t)%nat with ((N - t) + (L - N))%nat by lia. rewrite wpicks_app, Er.
+    replace (ctr + Z.of_nat t + Z.of_nat (N - t)) with (ctr + Z.of_nat N) by lia. reflexivity.
+Qed.
+
+Definition has_max_at (ws : list Z) (j : Z) : Prop := 0 <= j < zlen ws /\ nthz ws j = maxWeight.
+
+Lemma u32_nonneg x : 0 <= u32 x.
+Proof. unfold u32. apply Z.mod_pos_bound. reflexivity. Qed.
+
+(* k successive calls return the first k picks of the window, each within n sequence numbers *)
+Lemma calls_window ws j fuel : weights_ok ws -> has_max_at ws j -> (Z.to_nat (zlen ws) <= fuel)%nat ->
+  forall k L ctr, (k <= length (wpicks ws ctr L))%nat -> 0 <= ctr -> ctr + Z.of_nat L < 2 ^ 32 ->
+  evens (edf_calls fuel k ws ctr) = firstn k (wpicks ws ctr L) /\
+  Forall (fun u => 1 <= u <= zlen ws) (odds (edf_calls fuel k ws ctr)) /\
+  sumz (odds (edf_calls fuel k ws ctr)) <= Z.of_nat L.
+Proof.
+  intros Hok [Hj Hm] Hf. pose proof Hok as [Hn _].
+  induction k as [|k IH]; intros L ctr Hk Hc Hl.
+  - cbn. repeat split; [constructor|lia].
+  - destruct (wpicks ws ctr L) as [|p rest] eqn:Ep; [cbn in Hk; lia|].
+    destruct (call_in_window ws j fuel Hok Hj Hm Hf L ctr p rest Hc Hl Ep) as (t & Ht & Htn & Et & Er).
+    assert (Hp: 0 <= p).
+    { pose proof (wpicks_range ws ltac:(lia) L ctr) as F. rewrite Ep in F. inversion F; subst. lia. }
+    cbn [edf_calls]. rewrite Et. destruct (Z.ltb_spec p 0); [lia|].
+    replace (ctr + Z.of_nat t - ctr) with (Z.of_nat t) by lia. rewrite u32_id by lia.
+    cbn [length] in Hk.
+    destruct (IH (L - t)%nat (ctr + Z.of_nat t)) as (I1 & I2 & I3); [rewrite Er; lia|lia|lia|].
+    cbn [evens odds firstn sumz]. rewrite I1, Er. split; [reflexivity|]. split; [constructor; [lia|exact I2]|lia].
+Qed.
+
+Fixpoint sum_upto (f : Z -> Z) (n : nat) : Z :=
+  match n with O => 0 | S k => sum_upto f k + f (Z.of_nat k) end.
+
+Lemma sum_upto_ext f g n : (forall i, 0 <= i < Z.of_nat n -> f i = g i) -> sum_upto f n = sum_upto g n.
+Proof.
+  induction n as [|n IH]; intros H; cbn [sum_upto]; [reflexivity|].
+  rewrite IH, (H (Z.of_nat n)) by (try lia; intros; apply H; lia). reflexivity.
+Qed.
+
+Lemma sum_upto_add f g n : sum_upto (fun i => f i + g i) n = sum_upto f n + sum_upto g n.
+Proof. induction n as [|n IH]; cbn [sum_upto]; [lia|]. rewrite IH. lia. Qed.
+
+Lemma sum_upto_shift f n : sum_upto f (S n) = f 0 + sum_upto (fun i => f (i + 1)) n.
+Proof.
+  induction n as [|n IH]; [cbn; lia|].
+  change (sum_upto f (S (S n))) with (sum_upto f (S n) + f (Z.of_nat (S n))). rewrite IH.
+  cbn [sum_upto]. replace (Z.of_nat n + 1) with (Z.of_nat (S n)) by lia. lia.
+Qed.
+
+Lemma sum_upto_indicator x n : 0 <= x < Z.of_nat n ->
+  sum_upto (fun i => if x =? i then 1 else 0) n = 1.
+Proof.
+  induction n as [|n IH]; intros H; [lia|]. cbn [sum_upto].
+  destruct (Z.eqb_spec x (Z.of_nat n)) as [E|E].
+  - rewrite (sum_upto_ext _ (fun _ => 0)).
+    + assert (Hz: forall m, sum_upto (fun _ => 0) m = 0) by (induction m; cbn [sum_upto]; lia). rewrite Hz. lia.
+    + intros i Hi. destruct (Z.eqb_spec x i); [lia|reflexivity].
+  - rewrite IH by lia. lia.
+Qed.
+
+Lemma length_sum_cnt n l : Forall (fun x => 0 <= x < Z.of_nat n) l ->
+  Z.of_nat (length l) = sum_upto (fun i => cnt i l) n.
+Proof.
+  induction 1 as [|x r Hx Hr IH]; cbn [length cnt].
+  - assert (Hz: forall m, sum_upto (fun _ => 0) m = 0) by (induction m; cbn [sum_upto]; lia). rewrite Hz. reflexivity.
+  - rewrite Nat2Z.inj_succ, IH, sum_upto_add, sum_upto_indicator by exact Hx. lia.
+Qed.
+
+Lemma sumz_sum_nth ws : sumz ws = sum_upto (nthz ws) (length ws).
+Proof.
+  induction ws as [|w r IH]; [reflexivity|]. cbn [sumz length]. rewrite sum_upto_shift.
+  unfold nthz at 1. cbn [Z.to_nat nth]. rewrite IH. f_equal. apply sum_upto_ext.
+  intros i Hi. rewrite nthz_cons' by lia. f_equal. lia.
+Qed.
+
+(* the window of 65535*n sequence numbers contains exactly sum(ws) picks *)
+Lemma window_length ws ctr : weights_ok ws -> 0 <= ctr -> ctr + maxWeight * zlen ws < 2 ^ 32 ->
+  Z.of_nat (length (wpicks ws ctr (Z.to_nat (maxWeight * zlen ws)))) = sumz ws.
+Proof.
+  intros Hok Hc Hl. pose proof Hok as [Hn _].
+  rewrite (length_sum_cnt (length ws)).
+  - rewrite sumz_sum_nth. apply sum_upto_ext. intros i Hi. apply window_count; assumption.
+  - apply wpicks_range. lia.
+Qed.
+
+(* THE LIST-LEVEL STATEMENT: with some weight 65535 and a window of 65535*n sequence numbers
+   after ctr that stays below 2^32, the sum(ws) successive nextIndex calls consume only
+   sequence numbers of that window, each call at most n of them, and return backend i
+   exactly w_i times *)
+Theorem calls_consume_window ws j fuel ctr : weights_ok ws -> has_max_at ws j ->
+  (Z.to_nat (zlen ws) <= fuel)%nat -> 0 <= ctr -> ctr + maxWeight * zlen ws < 2 ^ 32 ->
+  let out := edf_calls fuel (Z.to_nat (sumz ws)) ws ctr in
+  (forall i, 0 <= i < zlen ws -> cnt i (evens out) = nthz ws i) /\
+  Forall (fun u => 1 <= u <= zlen ws) (odds out) /\
+  sumz (odds out) <= maxWeight * zlen ws.
+Proof.
+  intros Hok Hj Hf Hc Hl out. pose proof Hok as [Hn _].
+  set (L := Z.to_nat (maxWeight * zlen ws)).
+  assert (HL: Z.of_nat L = maxWeight * zlen ws) by (unfold L; rewrite Z2Nat.id; unfold maxWeight; lia).
+  pose proof (window_length ws ctr Hok Hc Hl) as Hlen. fold L in Hlen.
+  destruct (calls_window ws j fuel Hok Hj Hf (Z.to_nat (sumz ws)) L ctr) as (E1 & E2 & E3); try lia.
+  fold out in E1, E2, E3. split; [|split; [exact E2|lia]].
+  intros i Hi. rewrite E1, firstn_all2 by lia. apply window_count; assumption.
+Qed.
+
+(* ---------- the summarised window (edf_window) ---------- *)
+
+Definition bumps (l cs : list Z) : list Z := fold_left (fun cs i => bump i cs) l cs.
+
+Lemma bump_len cs : forall i, length (bump i cs) = length cs.
+Proof. induction cs as [|c r IH]; intro i; cbn [bump length]; [reflexivity|]. destruct (i =? 0); cbn [length]; [reflexivity|]. rewrite IH. reflexivity. Qed.
+
+Lemma bump_nth cs : forall i j, 0 <= i -> 0 <= j ->
+  nthz (bump i cs) j = nthz cs j + (if (i =? j) && (j <? zlen cs) then 1 else 0).
+Proof.
+  unfold zlen. induction cs as [|c r IH]; intros i j Hi Hj; cbn [bump length].
+  - destruct (Z.ltb_spec j (Z.of_nat 0)); [lia|]. rewrite andb_false_r. lia.
+  - rewrite Nat2Z.inj_succ. destruct (Z.eqb_spec i 0) as [->|Ni].
+    + destruct (Z.eq_dec j 0) as [->|Nj].
+      * unfold nthz. cbn [Z.to_nat nth]. destruct (Z.ltb_spec 0 (Z.succ (Z.of_nat (length r)))); [cbn; lia|lia].
+      * rewrite !nthz_cons' by lia. destruct (Z.eqb_spec 0 j); [lia|]. cbn [andb]. lia.
+    + destruct (Z.eq_dec j 0) as [->|Nj].
+      * unfold nthz. cbn [Z.to_nat nth]. destruct (Z.eqb_spec i 0); [lia|]. cbn [andb]. lia.
+      * rewrite !nthz_cons' by lia. rewrite IH by lia.
+        destruct (Z.eqb_spec (i - 1) (j - 1)); destruct (Z.eqb_spec i j); try lia;
+          destruct (Z.ltb_spec (j - 1) (Z.of_nat (length r))); destruct (Z.ltb_spec j (Z.succ (Z.of_nat (length r)))); cbn [andb]; lia.
+Qed.
+
+Lemma bumps_len l : forall cs, length (bumps l cs) = length cs.
+Proof. induction l as [|x r IH]; intro cs; cbn [bumps fold_left]; [reflexivity|]. fold (bumps r (bump x cs)). rewrite IH. apply bump_len. Qed.
+
+Lemma bumps_nth l : forall cs j, Forall (fun x => 0 <= x) l -> 0 <= j < zlen cs ->
+  nthz (bumps l cs) j = nthz cs j + cnt j l.
+Proof.
+  induction l as [|x r IH]; intros cs j Hl Hj; cbn [bumps fold_left cnt]; [lia|].
+  fold (bumps r (bump x cs)). inversion Hl as [|? ? Hx Hr]; subst.
+  rewrite IH; [|exact Hr|unfold zlen in *; rewrite bump_len; exact Hj].
+  rewrite bump_nth by lia. destruct (Z.ltb_spec j (zlen cs)); [|lia]. rewrite andb_true_r. lia.
+Qed.
+
+Lemma edf_window_len B ws : forall k ctr tot mx cs,
+  exists t m cs', edf_window B k ws ctr tot mx cs = t :: m :: cs' /\ length cs' = length cs.
+Proof.
+  induction k as [|k IH]; intros ctr tot mx cs; cbn [edf_window]; [eauto|].
+  destruct (edf_next B ws ctr) as [i c']. destruct (i <? 0); [eauto|].
+  destruct (IH c' (tot + u32 (c' - ctr)) (Z.max mx (u32 (c' - ctr))) (bump i cs)) as (t & m & cs' & E & El).
+  rewrite E. exists t, m, cs'. split; [reflexivity|]. rewrite El. apply bump_len.
+Qed.
+
+Lemma window_calls ws j fuel : weights_ok ws -> has_max_at ws j -> (Z.to_nat (zlen ws) <= fuel)%nat ->
+  forall k L ctr tot mx cs, (k <= length (wpicks ws ctr L))%nat -> 0 <= ctr -> ctr + Z.of_nat L < 2 ^ 32 ->
+  exists T mx', edf_window fuel k ws ctr tot mx cs =
+                (tot + T) :: mx' :: bumps (firstn k (wpicks ws ctr L)) cs /\
+                0 <= T <= Z.of_nat L /\ mx <= mx' <= Z.max mx (zlen ws).
+Proof.
+  intros Hok [Hj Hm] Hf. pose proof Hok as [Hn _].
+  induction k as [|k IH]; intros L ctr tot mx cs Hk Hc Hl.
+  - exists 0, mx. cbn [edf_window firstn bumps fold_left]. split; [f_equal; lia|lia].
+  - destruct (wpicks ws ctr L) as [|p rest] eqn:Ep; [cbn in Hk; lia|].
+    destruct (call_in_window ws j fuel Hok Hj Hm Hf L ctr p rest Hc Hl Ep) as (t & Ht & Htn & Et & Er).
+    assert (Hp: 0 <= p).
+    { pose proof (wpicks_range ws ltac:(lia) L ctr) as F. rewrite Ep in F. inversion F; subst. lia. }
+    cbn [edf_window]. rewrite Et. destruct (Z.ltb_spec p 0); [lia|].
+    replace (ctr + Z.of_nat t - ctr) with (Z.of_nat t) by lia. rewrite u32_id by lia.
+    cbn [length] in Hk.
+    destruct (IH (L - t)%nat (ctr + Z.of_nat t) (tot + Z.of_nat t) (Z.max mx (Z.of_nat t)) (bump p cs))
+      as (T & mx' & E & HT & Hmx); [rewrite Er; lia|lia|lia|].
+    exists (Z.of_nat t + T), mx'. rewrite E, Er. cbn [firstn bumps fold_left]. split; [f_equal; lia|lia].
+Qed.
+
+Lemma zeros_nth (ws : list Z) j : nthz (map (fun _ => 0) ws) j = 0.
+Proof. unfold nthz. generalize (Z.to_nat j). induction ws as [|w r IH]; intros [|k]; cbn [map nth]; auto. Qed.
+
+Lemma nthz_ext (a b : list Z) : length a = length b ->
+  (forall j, 0 <= j < zlen a -> nthz a j = nthz b j) -> a = b.
+Proof.
+  intros Hl H. apply (nth_ext a b 0 0 Hl). intros k Hk.
+  specialize (H (Z.of_nat k) ltac:(unfold zlen; lia)). unfold nthz in H. rewrite Nat2Z.id in H. exact H.
+Qed.
+
+(* the summary of the sum(ws) calls after ctr: they stay in the window, each call uses at
+   most n sequence numbers, and the per-backend counts are the weights *)
+Theorem window_summary ws j fuel ctr : weights_ok ws -> has_max_at ws j ->
+  (Z.to_nat (zlen ws) <= fuel)%nat -> 0 <= ctr -> ctr + maxWeight * zlen ws < 2 ^ 32 ->
+  exists tot mx, edf_window fuel (Z.to_nat (sumz ws)) ws ctr 0 0 (map (fun _ => 0) ws) = tot :: mx :: ws /\
+                 0 <= tot <= maxWeight * zlen ws /\ 0 <= mx <= zlen ws.
+Proof.
+  intros Hok Hj Hf Hc Hl. pose proof Hok as [Hn _].
+  set (L := Z.to_nat (maxWeight * zlen ws)).
+  assert (HL: Z.of_nat L = maxWeight * zlen ws) by (unfold L; rewrite Z2Nat.id; unfold maxWeight; lia).
+  pose proof (window_length ws ctr Hok Hc Hl) as Hlen. fold L in Hlen.
+  destruct (window_calls ws j fuel Hok Hj Hf (Z.to_nat (sumz ws)) L ctr 0 0 (map (fun _ => 0) ws))
+    as (T & mx & E & HT & Hmx); try lia.
+  exists T, mx. rewrite E, firstn_all2 by lia. split; [|lia]. cbn [Z.add]. f_equal. f_equal.
+  apply nthz_ext.
+  - rewrite bumps_len, map_length. reflexivity.
+  - intros i Hi. unfold zlen in Hi. rewrite bumps_len, map_length in Hi.
+    rewrite bumps_nth, zeros_nth.
+    + rewrite window_count by (try assumption; unfold zlen; lia). lia.
+    + eapply Forall_impl; [|apply (wpicks_range ws ltac:(lia))]. cbn beta. intros; lia.
+    + unfold zlen. rewrite map_length. lia.
+Qed.
+
+(* without the window: every call that starts at least n below the wrap returns a backend
+   within n sequence numbers *)
+Lemma odds_calls_nonneg B ws : forall k ctr, 0 <= sumz (odds (edf_calls B k ws ctr)).
+Proof.
+  induction k as [|k IH]; intro ctr; cbn [edf_calls]; [cbn; lia|].
+  destruct (edf_next B ws ctr) as [i c']. cbn [odds sumz].
+  pose proof (u32_nonneg (c' - ctr)). destruct (i <? 0); [cbn; lia|]. specialize (IH c'). lia.
+Qed.
+
+Lemma calls_bound ws j fuel : weights_ok ws -> has_max_at ws j -> (Z.to_nat (zlen ws) <= fuel)%nat ->
+  forall k ctr, 0 <= ctr -> ctr + sumz (odds (edf_calls fuel k ws ctr)) + zlen ws < 2 ^ 32 ->
+  forallb (fun x => 0 <=? x) (evens (edf_calls fuel k ws ctr)) &&
+  forallb (fun u => u <=? zlen ws) (odds (edf_calls fuel k ws ctr)) = true.
+Proof.
+  intros Hok [Hj Hm] Hf. pose proof Hok as [Hn _].
+  induction k as [|k IH]; intros ctr Hc Hs; [reflexivity|].
+  cbn [edf_calls] in *.
+  pose proof (odds_calls_nonneg fuel ws k) as Hnn.
+  destruct (edf_next fuel ws ctr) as [i c'] eqn:En. cbn [odds sumz] in Hs.
+  assert (Hcn: ctr + zlen ws < 2 ^ 32).
+  { pose proof (u32_nonneg (c' - ctr)). destruct (i <? 0); [cbn in Hs; lia|]. specialize (Hnn c'). lia. }
+  destruct (edf_next_within_n ws j fuel ctr Hj Hm ltac:(lia) Hc Hcn Hf) as (t & Ht & Et).
+  rewrite En in Et. inversion Et; subst i c'. clear Et.
+  assert (Hb: 0 <= backend (zlen ws) (ctr + t)) by (unfold backend; apply Z.mod_pos_bound; lia).
+  destruct (Z.ltb_spec (backend (zlen ws) (ctr + t)) 0); [lia|].
+  replace (ctr + t - ctr) with t in * by lia. rewrite u32_id in * by lia.
+  cbn [evens odds forallb].
+  specialize (IH (ctr + t) ltac:(lia) ltac:(lia)). apply andb_true_iff in IH as [I1 I2].
+  rewrite I1, I2. destruct (Z.leb_spec 0 (backend (zlen ws) (ctr + t))); [|lia].
+  destruct (Z.leb_spec t (zlen ws)); [reflexivity|lia].
+Qed.
+
 (* ---------- round robin fallback ---------- *)
 
 Lemma rr_calls_len k n ctr : length (rr_calls k n ctr) = k.
@@ -160,7 +588,7 @@ Qed.
 
 (* ---------- the bridge ---------- *)
 
-Definition okc (c : Z * Z * bool) : bool := (fst (fst c) =? 5) || (fst (fst c) =? 6) || snd c.
+Definition okc (c : Z * Z * bool) : bool := (fst (fst c) =? 6) || (fst (fst c) =? 7) || snd c.
 
 Lemma edf_next_idx ws : 0 < zlen ws -> forall fuel ctr,
   -1 <= fst (edf_next fuel ws ctr) < zlen ws.
@@ -291,11 +719,43 @@ Proof.
   destruct (edf_next B ws ctr) as [i c']. destruct (i <? 0); [eauto|apply IH].
 Qed.
 
+Lemma ws_ok_range ws : ws_ok ws = true -> forall i, 0 <= i < zlen ws -> 0 <= nthz ws i <= maxWeight.
+Proof.
+  unfold ws_ok. rewrite andb_true_iff. intros [_ H] i Hi. rewrite forallb_forall in H.
+  assert (Hin: In (nthz ws i) ws) by (unfold nthz; apply nth_In; unfold zlen in Hi; lia).
+  apply H, andb_true_iff in Hin as [H1 H2]. apply Z.leb_le in H1, H2. lia.
+Qed.
+
+Lemma sumz_nonneg_ok ws : ws_ok ws = true -> 0 <= sumz ws.
+Proof.
+  unfold ws_ok. rewrite andb_true_iff. intros [_ H]. rewrite forallb_forall in H.
+  induction ws as [|w r IH]; cbn [sumz]; [lia|].
+  assert (0 <= w) by (specialize (H w (or_introl eq_refl)); apply andb_true_iff in H as [H1 _]; apply Z.leb_le in H1; lia).
+  assert (0 <= sumz r) by (apply IH; intros x Hx; apply H; right; exact Hx). lia.
+Qed.
+
+Lemma has_max_spec ws : ws_ok ws = true -> has_max ws = true ->
+  weights_ok ws /\ (exists j, has_max_at ws j) /\ (Z.to_nat (zlen ws) <= Z.to_nat budget)%nat.
+Proof.
+  intros Hok Hm. unfold has_max in Hm. apply andb_true_iff in Hm as [He Hb]. apply Z.leb_le in Hb.
+  pose proof (ws_ok_pos ws Hok) as Hn. split; [|split].
+  - split; [unfold budget in Hb; change (2 ^ 32) with 4294967296; lia|apply ws_ok_range, Hok].
+  - apply existsb_exists in He as (w & Hin & Hw). apply Z.eqb_eq in Hw. subst w.
+    destruct (In_nth ws maxWeight 0 Hin) as (k & Hk & Ek). exists (Z.of_nat k). split; [unfold zlen; lia|].
+    unfold nthz. rewrite Nat2Z.id. exact Ek.
+  - lia.
+Qed.
+
 Lemma step_ok i e oc : forallb okc (clause_op i e oc (snd (step e oc))) = true.
 Proof.
-  destruct oc as [s k ws|s k n|ps|now q a c ee p|now expir blackout|s ws]; cbn [clause_op].
+  destruct oc as [s k ws|s k n|ps|now q a c ee p|now expir blackout|s ws|ps]; cbn [clause_op].
   - unfold clause_edf. destruct (ws_ok ws) eqn:Hok; [|reflexivity]. cbn [negb step snd forallb okc fst snd].
-    rewrite (edf_calls_idx _ ws (ws_ok_pos ws Hok)). reflexivity.
+    rewrite (edf_calls_idx _ ws (ws_ok_pos ws Hok)). cbn [orb andb].
+    set (o := edf_calls (Z.to_nat budget) (clipk k) ws (u32 s)).
+    destruct (has_max ws) eqn:Hm; [|reflexivity]. cbn [andb].
+    destruct (Z.ltb_spec (u32 s + sumz (odds o) + zlen ws) (2 ^ 32)) as [L|L]; [|reflexivity].
+    destruct (has_max_spec ws Hok Hm) as (Hwo & (j & Hj) & Hf).
+    unfold o in *. rewrite (calls_bound ws j _ Hwo Hj Hf (clipk k) (u32 s) (u32_nonneg s) L). reflexivity.
   - unfold clause_rr. destruct (Z.leb_spec n 0) as [L|L]; [reflexivity|]. cbn [step snd].
     destruct (Z.leb_spec n 0); [lia|]. cbn [forallb okc fst snd].
     assert (El: zlen (rr_calls (clipk k) n (u32 s)) = Z.of_nat (clipk k)) by (unfold zlen; rewrite rr_calls_len; reflexivity).
@@ -303,12 +763,27 @@ Proof.
     destruct (Z.ltb_spec (u32 s + Z.of_nat (clipk k)) (2 ^ 32)); [|reflexivity].
     rewrite rr_consecutive_ok; [reflexivity|lia| |lia].
     unfold u32. apply Z.mod_pos_bound. reflexivity.
-  - cbn [step snd]. apply clause_new_ok.
+  - cbn [step snd]. rewrite forallb_app, clause_new_ok. unfold clause_maxw.
+    destruct (new_scheduler (map fr ps)) as [|h wts]; [reflexivity|]. destruct (h =? 2); reflexivity.
   - reflexivity.
   - apply clause_wt_ok.
-  - unfold clause_win. destruct (negb (ws_ok ws) || (maxWindow <? sumz ws)); [reflexivity|].
-    cbn [step snd]. destruct (edf_window_shape (Z.to_nat budget) ws (Z.to_nat (Z.min (Z.max (sumz ws) 0) maxWindow)) (u32 s) 0 0 (map (fun _ => 0) ws)) as (t & m & cs' & ->).
-    reflexivity.
+  - unfold clause_win. destruct (ws_ok ws) eqn:Hok; [|reflexivity]. cbn [negb orb].
+    destruct (Z.ltb_spec maxWindow (sumz ws)) as [G|G]; [reflexivity|].
+    cbn [step snd]. pose proof (sumz_nonneg_ok ws Hok) as Hs.
+    rewrite Z.max_l, Z.min_l by lia.
+    destruct (edf_window_len (Z.to_nat budget) ws (Z.to_nat (sumz ws)) (u32 s) 0 0 (map (fun _ => 0) ws))
+      as (t & m & cs' & E & El). rewrite E. cbn [forallb okc fst snd orb].
+    assert (Ez: zlen cs' = zlen ws) by (unfold zlen; rewrite El, map_length; reflexivity).
+    rewrite Ez, Z.eqb_refl. cbn [andb].
+    destruct (has_max ws) eqn:Hm; [|reflexivity]. cbn [andb].
+    destruct (Z.ltb_spec (u32 s + maxWeight * zlen ws) (2 ^ 32)) as [L|L]; [|reflexivity].
+    destruct (has_max_spec ws Hok Hm) as (Hwo & (j & Hj) & Hf).
+    destruct (window_summary ws j _ (u32 s) Hwo Hj Hf (u32_nonneg s) L) as (tot & mx & E2 & Ht & Hmx).
+    rewrite E in E2. inversion E2; subst t m cs'.
+    rewrite word_eqb_refl.
+    destruct (Z.leb_spec 0 tot); [|lia]. destruct (Z.leb_spec tot (maxWeight * zlen ws)); [|lia].
+    destruct (Z.leb_spec mx (zlen ws)); [reflexivity|lia].
+  - unfold clause_maxw. destruct (snd (step e (ONewX ps))) as [|h wts]; [reflexivity|]. destruct (h =? 2); reflexivity.
 Qed.
 
 Lemma run_from_ok ops : forall i e, forallb op_wf ops = true ->
